@@ -1,4 +1,5 @@
 import ExprModel.Proofs.VMStep
+import ExprModel.Proofs.SpecInv
 import ExprModel.VM.SrcDefects
 /-
 C06 — The memory budget bounds what a run can allocate.
@@ -284,6 +285,58 @@ theorem needs_ge_fails (hr : c.defects.rangeSizeSigned = false) (hw : WorldNB c.
   have hstuck : ∀ t', step c p t ≠ .ok t' :=
     needs_ge_fails_step hr hw hp (by have := hi.eq; have := hi.limit; omega)
   exact loop_not_ok_of_stuck n _ t hreach (pending_in_range hp) hstuck
+
+/-! ### the language level: the same invariants for the reference evaluator `Spec.eval`
+
+By structural recursion over the syntax tree (Proofs/SpecInv.lean): array and map literals, run-time ranges
+(ascending, empty, descending), `map` / `filter` results and every nesting of these inside any other
+construct — "however the allocations are split between ranges, literals and builtin results". -/
+
+/-- the counter the budget is checked against equals the number of elements the evaluation built, at the
+    end of every evaluation, successful or not -/
+theorem spec_memory_eq_created (sc : Spec.SCfg) (cast : Option Nat) (n : Node) (hr : sc.rangeSizeSigned = false) :
+    (Spec.run sc cast n).2.memory = ((Spec.run sc cast n).2.created : Int) :=
+  Spec.spec_memory_eq_created sc cast n hr
+
+/-- a successful evaluation has built fewer elements than the budget -/
+theorem spec_success_lt_budget (sc : Spec.SCfg) (cast : Option Nat) (n : Node) (v : Val)
+    (hr : sc.rangeSizeSigned = false) (hb : 0 < sc.budget) (hv : (Spec.run sc cast n).1 = .ok v) :
+    ((Spec.run sc cast n).2.created : Int) < sc.budget :=
+  Spec.spec_success_lt_budget sc cast n hr hb hv
+
+/-- an evaluation that builds at least as many elements as the budget ends with the budget error -/
+theorem spec_needs_ge_fails (sc : Spec.SCfg) (cast : Option Nat) (n : Node)
+    (hr : sc.rangeSizeSigned = false) (hb : 0 < sc.budget)
+    (hge : sc.budget ≤ ((Spec.run sc cast n).2.created : Int)) :
+    (Spec.run sc cast n).1 = .error .budget :=
+  Spec.spec_budget_error_of_created_ge_budget sc cast n hr hb hge
+
+/-- every intermediate evaluation: the invariant is kept from any state that satisfies it, and a sub-evaluation
+    that does not end in the budget error leaves the counter below the budget -/
+theorem spec_eval_invariant (sc : Spec.SCfg) (hr : sc.rangeSizeSigned = false) (ctx : Spec.Ctx) (n : Node)
+    (s : Spec.SState) (hs : s.memory = (s.created : Int)) :
+    (Spec.eval sc ctx n s).2.memory = ((Spec.eval sc ctx n s).2.created : Int) ∧
+    s.created ≤ (Spec.eval sc ctx n s).2.created ∧
+    (s.memory < sc.budget → (Spec.eval sc ctx n s).1 ≠ .error .budget → (Spec.eval sc ctx n s).2.memory < sc.budget) :=
+  ⟨Spec.eval_memory_eq_created sc hr ctx n s hs, Spec.eval_created_mono sc hr ctx n s,
+   fun hlt hne => Spec.eval_lt_budget_of_not_budget_error sc hr ctx n s hs hlt hne⟩
+
+/-- NOT PROVED (searched by the harness oracle on the real code instead): the two-budget formulation of
+    "needs" — the number of elements an expression *needs* is what an evaluation under a budget large enough
+    to succeed creates; under any other budget the evaluation succeeds with the same value exactly when it
+    needs fewer elements than that budget, and ends with the budget error otherwise. -/
+def spec_needs_goal : Prop :=
+  ∀ (sc : Spec.SCfg) (cast : Option Nat) (n : Node) (big : Int) (v : Val), sc.rangeSizeSigned = false → 0 < sc.budget →
+    (Spec.run { sc with budget := big } cast n).1 = .ok v →
+    (((Spec.run { sc with budget := big } cast n).2.created : Int) < sc.budget → (Spec.run sc cast n).1 = .ok v) ∧
+    (sc.budget ≤ ((Spec.run { sc with budget := big } cast n).2.created : Int) → (Spec.run sc cast n).1 = .error .budget)
+
+/-- the strongest proved part of `spec_needs_goal`: both directions for one and the same evaluation -/
+theorem spec_needs_partial (sc : Spec.SCfg) (cast : Option Nat) (n : Node) (hr : sc.rangeSizeSigned = false)
+    (hb : 0 < sc.budget) :
+    (∀ v, (Spec.run sc cast n).1 = .ok v → ((Spec.run sc cast n).2.created : Int) < sc.budget) ∧
+    (sc.budget ≤ ((Spec.run sc cast n).2.created : Int) → (Spec.run sc cast n).1 = .error .budget) :=
+  ⟨fun v hv => spec_success_lt_budget sc cast n v hr hb hv, spec_needs_ge_fails sc cast n hr hb⟩
 
 /-! ### the defect as it was (`rangeSizeSigned := true`): a descending range lowers the counter -/
 
